@@ -373,7 +373,11 @@ where
     B: Send + 'static,
 {
     fn push(&mut self, token: Token, mut connection: C, pool_ref: PoolRef<C, B>) {
-        self.connecting.remove(&token);
+        // Only a connection which can be shared satisfies the requests waiting for the
+        // in-progress connection; a returning single-use connection leaves the mark alone.
+        if connection.can_share() {
+            self.connecting.remove(&token);
+        }
 
         if let Some(waiters) = self.waiting.get_mut(&token) {
             trace!(waiters=%waiters.len(), ?token, "walking waiters");
